@@ -469,6 +469,55 @@ fn remove_sack_attempt() {
     }
 }
 
+// remove_up_to_ack with a ONE-byte selective ACK (8 packets) on exactly N segments. `stale`: only ACKs whose ack_nr is behind
+// snd_una - 1 (an old/reordered ACK whose bitmap reaches the queue front: the cumulative drain is skipped, the front-cleanup loop runs).
+fn check_remove_sack1<const N: usize>(stale: bool) {
+    let mut s = any_segments::<N>();
+    let n0 = s.segments.len();
+    let una0 = s.snd_una;
+    let off0 = s.removed_offset;
+    let len0 = s.len_bytes;
+    let mut sizes = [0usize; N];
+    let mut deliv = [false; N];
+    let mut i = 0;
+    while i < n0 { sizes[i] = s.segments[i].payload_size; deliv[i] = s.segments[i].is_delivered; i += 1; }
+    let ack: u16 = kani::any();
+    if stale { kani::assume(SeqNr(ack) - una0 < 0); }
+    let bytes: [u8; 1] = kani::any();
+    let mut hdr = UtpHeader { ack_nr: SeqNr(ack), ..Default::default() };
+    hdr.extensions.selective_ack = Some(SelectiveAck::deserialize(&bytes));
+    let r = s.remove_up_to_ack(any_instant(), &hdr);
+    // byte accounting survives (C01/C06: the offsets the sender reads payload from stay those of the remaining segments)
+    assert!(wf(&s));
+    let k = r.acked_segments_count;
+    assert!(k <= n0 && s.segments.len() == n0 - k);
+    assert!(s.snd_una == una0 + k as u16);
+    assert!(s.removed_offset == off0 + r.acked_bytes as u64 && s.len_bytes + r.acked_bytes == len0);
+    let mut sum = 0usize;
+    let mut i = 0;
+    while i < k { sum += sizes[i]; i += 1; }
+    assert!(r.acked_bytes == sum);
+    // a segment that stays in the queue keeps its size and is delivered only if it was before or a SACK bit names it
+    let mut i = 0;
+    while i < n0 - k {
+        let g = &s.segments[i];
+        assert!(g.payload_size == sizes[i + k]);
+        if g.is_delivered && !deliv[i + k] {
+            let bit = (una0 + (i + k) as u16) - (SeqNr(ack) + 2);
+            assert!(bit >= 0 && bit < 8);
+            assert!((bytes[0] >> bit) & 1 == 1);
+        }
+        i += 1;
+    }
+    // the front of the queue is never left delivered (acknowledged data is released at once)
+    if s.segments.len() > 0 { assert!(!s.segments[0].is_delivered); }
+}
+
+//@ harness id=txseg.k.remove_sack1.stale.n1.attempt kind=attempt props=C01,C06,C10 tier=thorough timeout=1500 bound="N_SEG==1; SACK of 1 symbolic byte; ack_nr behind snd_una" text="remove_up_to_ack, stale selective ACK reaching the queue front: no panic, byte accounting (removed_offset, len_bytes, snd_una, acked_bytes) advances by exactly the released segments, remaining segments keep size and offsets, only SACK-named segments become delivered, the front is never left delivered (attempt-class: measured > 900 s even for one segment - bitvec iteration zipped with VecDeque::iter_mut is at CBMC's limit)"
+#[kani::proof]
+#[kani::unwind(10)]
+fn remove_sack1_stale_n1() { check_remove_sack1::<1>(true); }
+
 //@ harness id=txseg.k.vacuity kind=vacuity props=C01,C06,C10,C14,C05,C09 tier=quick timeout=300 text="the symbolic wf pre-state admits: a trailing probe, delivered segments behind the front, sequence numbers at the 16-bit wrap, non-uniform sizes"
 #[kani::proof]
 #[kani::unwind(5)]
